@@ -337,13 +337,27 @@ def _witness_ok(fi, fn, change, loops, lst_key):
     """cell_divider::run: renumbering under 'if(W.size() > 0)'; accepted when the change is (a) inside that if, or
     (b) an append of a local list that is only grown in the same critical block that grows W."""
     for l in loops:
-        for p, slot, ch in fi.ancestors(l):
-            if p.get("k") == "IfStmt" and slot == "then":
-                c = strip(p["cond"])
-                if c.get("k") == "BinaryOperator" and c.get("op") == ">" and strip(c["c"][0]).get("callee", "").endswith("::size"):
-                    W = e1.handle_key(call_obj(strip(c["c"][0])))
-                    if any(q is p for q, s, cc in fi.ancestors(change)):
+        # the witness W: the renumbering runs exactly when W is non-empty - 'if(W.size() > 0){...}', 'if(!W.empty()){...}' or an
+        # early 'if(W.empty()) return;' in front of it
+        cands = []
+        for cond, pol in fi.guards(l):
+            c = strip(cond)
+            while c.get("k") == "UnaryOperator" and c.get("op") == "!":
+                pol = not pol
+                c = strip(c["c"][0])
+            if c.get("k") == "BinaryOperator" and c.get("op") in (">", "!=", "==") and strip(c["c"][0]).get("callee", "").endswith("::size") and strip(c["c"][1]).get("v") == "0":
+                if (c["op"] in (">", "!=")) == pol:
+                    cands.append((e1.handle_key(call_obj(strip(c["c"][0]))), cond))
+            if c.get("k") == "CXXMemberCallExpr" and c.get("callee", "").endswith("::empty") and not pol:
+                cands.append((e1.handle_key(call_obj(c)), cond))
+        for W, cond in cands:
+            holder = [p for p, slot, ch in fi.ancestors(l) if p.get("k") == "IfStmt" and p.get("cond") is cond]
+            if True:
+                    p = holder[0] if holder else None
+                    if p is not None and any(q is p for q, s, cc in fi.ancestors(change)):
                         return True
+                    if p is None and fi.order[id(change)] > max(fi.order[id(x)] for x in walk(cond)):
+                        return True      # the change itself is behind the early return: executed only when W is non-empty
                     # appended container
                     if change.get("callee", "").endswith("::insert"):
                         srcs = {e1.handle_key(call_obj(x)) for a in call_args(change) for x in walk(a) if x.get("k") == "CXXMemberCallExpr" and x.get("callee", "").split("::")[-1] in ("begin", "end")} - {lst_key}
